@@ -9,6 +9,8 @@ recorded at the client boundary, the gateway boundary and the registered callbac
 """
 from __future__ import annotations
 
+from ..excfam import family
+
 import asyncio
 import itertools
 import logging
@@ -167,7 +169,7 @@ def run_case(case, V, acc=None):
                 if i is not None and specs[i]["beh"] == "sendfail":
                     raise LinkDown("link-level send failure")
             except BaseException as ex:
-                tr.append(("send_fail", clock(), i, type(ex).__name__))
+                tr.append(("send_fail", clock(), i, family(ex)))
                 raise
             tr.append(("send_end", clock(), i))
             if i is not None and specs[i].get("cancel") == "waiting":
@@ -206,7 +208,7 @@ def run_case(case, V, acc=None):
                 tr.append(("cancelled", clock(), i))
                 raise
             except BaseException as ex:  # noqa: BLE001
-                tr.append(("exc", clock(), i, type(ex).__name__))
+                tr.append(("exc", clock(), i, family(ex)))
             else:
                 tr.append(("ret", clock(), i, res))
                 last_done_seq[0] = sp.get("seq")
@@ -378,9 +380,7 @@ def check_history(case, tr, info):
                             f"carried {mine[0][5]!r}"))
         elif oc[0] == "exc":
             if c["sf"] is not None:
-                if oc[3] != c["sf"]:
-                    bad.append(("C06/sendfail/wrong-exception", f"call {i}: send failed with {c['sf']}, call raised {oc[3]}"))
-                continue
+                continue  # the send itself failed: the call raised (which exception is not C06's business)
             if oc[3] != "TimeoutError":
                 bad.append(("C06/outcome/unexpected-exception", f"call {i} raised {oc[3]}"))
                 continue
